@@ -30,7 +30,7 @@ func main() {
 	seed := flag.Int64("seed", 1, "PRNG seed")
 	n := flag.Int("n", 200, "number of generated layouts for the byte-level part")
 	ne := flag.Int("e2e", 30, "number of end-to-end Reader scenarios")
-	only := flag.String("only", "", "run only this part: l1, sweep, f1, e2e, readercut (-n scenarios)")
+	only := flag.String("only", "", "run only this part: l1, sweep, rd, f1, e2e, readercut (-n scenarios)")
 	replay := flag.String("replay", "", "re-run one l1 case given as \"l1 v=.. off=.. hwm=.. declared=.. late=.. blobs=.. bytes=..\"")
 	flag.Parse()
 	out = bufio.NewWriterSize(os.Stdout, 1<<20)
@@ -57,6 +57,13 @@ func main() {
 	}
 	if *only == "" || *only == "e2e" {
 		runE2E(r, *ne)
+	}
+	if *only == "" || *only == "l1" || *only == "rd" {
+		nr := 150
+		if *only == "rd" {
+			nr = *n
+		}
+		runRd(rand.New(rand.NewSource(*seed+11)), nr)
 	}
 	if *only == "readercut" {
 		runE2EReaderCut(r, *n)
